@@ -46,6 +46,7 @@ Apply(op) ==
       [] op.a = "get" -> IF S.active THEN Get(op.k) ELSE Skip(op)
       [] op.a = "sload" -> IF S.active THEN SLoad(op.k) ELSE Skip(op)
       [] op.a = "fetch" -> IF S.active THEN Fetch(op.k) ELSE Skip(op)
+      [] op.a = "clear" -> IF S.active /\ ~S.hold /\ ~S.gate THEN Clear ELSE Skip(op)
       [] op.a = "evict_all" -> IF S.active THEN EvictAll ELSE Skip(op)
       [] op.a = "evict_all_nt" -> IF S.active THEN EvictAllNoTurn ELSE Skip(op)
       [] op.a = "hold" -> IF S.active /\ ~S.hold THEN Hold ELSE Skip(op)
@@ -53,7 +54,9 @@ Apply(op) ==
       [] op.a = "gate_on" -> IF S.active /\ ~S.gate THEN GateOn ELSE Skip(op)
       [] op.a = "gate_off" -> IF S.gate THEN GateOff ELSE Skip(op)
       [] op.a = "gate_step" -> IF S.gate /\ S.inio /\ S.hold THEN GateStep ELSE Skip(op)
-      [] op.a = "close" -> IF S.active /\ ~S.hold /\ ~S.gate /\ S.heldph = <<>> THEN Close ELSE Skip(op)
+      [] op.a = "close" -> IF S.active /\ ~S.hold /\ ~S.gate /\ S.heldph = <<>> THEN Close
+                           ELSE IF S.active /\ S.gate /\ ~S.hold /\ S.inio /\ S.heldph = <<>> THEN CloseGated
+                           ELSE Skip(op)
       [] op.a = "reopen" -> IF ~S.active THEN Reopen ELSE Skip(op)
 
 Count(s, x) == Cardinality({i \in DOMAIN s : s[i] = x})
@@ -71,6 +74,9 @@ Bad(op, o, T, exp) ==
             \* what the code does - expects exactly this answer
             ELSE IF k \in T.late /\ r # 0 /\ r < 1000000 /\ r # T.truth[k]
                  THEN {<<"C01", "older_version_republished_by_late_drop_of_diskonly_handle">>}
+            \* finding F13 (open): a cleared entry is back after clear + further writes + restart
+            ELSE IF k \in T.revived /\ r # 0 /\ r < 1000000 /\ r # T.truth[k]
+                 THEN {<<"C01", "cleared_entry_back_after_restart">>}
             ELSE IF r = exp THEN {}
             ELSE IF r < 0 THEN {<<"tool", "lookup_failed_or_incomplete">>}
             ELSE IF r >= 1000000 \/ (known(r) /\ T.vkey[r] # k) THEN {<<"C17", "foreign_value">>}
@@ -107,6 +113,11 @@ Bad(op, o, T, exp) ==
                                          /\ LET kk == T.vkey[T.wr[i]] IN
                                             T.truth[kk] = T.wr[i] /\ kk \notin T.shed /\ ~Collides(kk)
             THEN {<<"C15", "latest_version_not_written_by_close">>} ELSE {}
+        \* close() returns only after the device writes in flight have completed (judged on the observation alone)
+        pendTags ==
+            (IF op.a = "close" /\ o.res = 0 /\ o.pend > 0
+             THEN {<<"C15", "close_returned_while_device_writes_pending">>} ELSE {})
+            \cup (IF o.pend # (IF T.inio THEN 1 ELSE 0) THEN {<<"drift", "pending_writes">>} ELSE {})
         memExp == [i \in 1 .. Len(KeySeq) |-> IF InMem(T, KeySeq[i]) THEN 1 ELSE 0]
         memTags ==
             \* the advice governs the insert (a later lookup may populate memory from disk)
@@ -115,10 +126,11 @@ Bad(op, o, T, exp) ==
             ELSE IF o.mem = memExp THEN {} ELSE {<<"drift", "residency">>}
         dskExp == [i \in 1 .. Len(KeySeq) |-> IF T.index[Hash[KeySeq[i]]].kind = "addr" THEN 1 ELSE 0]
         dskTags == IF o.dsk = dskExp THEN {} ELSE {<<"drift", "disk_index">>}
-    IN resTags \cup enqTags \cup hitTags \cup wrTags \cup closeTags \cup memTags \cup dskTags
+    IN resTags \cup enqTags \cup hitTags \cup wrTags \cup closeTags \cup pendTags \cup memTags \cup dskTags
 
 Robust == {"stale_or_removed_value", "foreign_value", "older_value_after_close", "hit_reoffered_to_disk",
-           "inmem_entry_on_device", "ondisk_entry_retained_in_memory"}
+           "inmem_entry_on_device", "ondisk_entry_retained_in_memory",
+           "close_returned_while_device_writes_pending"}
 
 TraceInit == S = S0 /\ out = [op |-> [a |-> "none"], res |-> 0] /\ l = 1 /\ bad = {} /\ dead = FALSE /\ seenwr = {}
 
@@ -130,7 +142,7 @@ TraceNext ==
        \* after a difference the specification's state may no longer describe the implementation: only the
        \* tags that rest on the logged operations alone (the truth of a key, its advice) are still judged
        \* (with a small flush buffer a write may be shed, which the specification can only tell while in step)
-       /\ bad' = IF isInit THEN {} ELSE IF dead THEN {x \in b : x[2] \in Robust /\ (BufCap >= 64 \/ x[1] = "C17")} ELSE b
+       /\ bad' = IF isInit THEN {} ELSE IF dead THEN {x \in b : x[2] \in Robust /\ (BufCap >= 64 \/ x[1] = "C17" \/ x[2] = "close_returned_while_device_writes_pending")} ELSE b
        /\ dead' = IF isInit THEN FALSE ELSE (dead \/ b # {})
        /\ seenwr' = (IF isInit THEN {} ELSE seenwr) \cup {Rec[l].obs.wr[i] : i \in DOMAIN Rec[l].obs.wr}
     /\ l' = l + 1
